@@ -62,7 +62,11 @@ def lazy_measure(task: dict) -> dict:
                     def go():
                         it = readers.iterate(ds, iface, "train", repeat=cfg["repeat"], shuffle=cfg["shuffle"],
                                              file_parallelism=cfg["fp"])
-                        got = [readers.ex_id(e) for e in itertools.islice(it, cfg["take"])]
+                        got = []
+                        for e in itertools.islice(it, cfg["take"]):
+                            got.append(readers.ex_id(e))
+                            if cfg.get("pace"):
+                                time.sleep(cfg["pace"])
                         time.sleep(0.15)  # let read-ahead threads run as far as they ever would
                         opened = {n for n in w.poll() if n.endswith(dsreal.EXT)}
                         close = getattr(it, "close", None)
@@ -88,7 +92,7 @@ def lazy_measure(task: dict) -> dict:
                         out["problems"].append(("raised", f"{fmt} {iface} {cfg}: {type(val).__name__}: {val}", cfg))
                         break
                     got, opened = val
-                    if len(got) != cfg["take"]:
+                    if len(got) != min(cfg["take"], S * eps):
                         out["problems"].append(("short", f"{fmt} {iface} {cfg}: got {len(got)} examples", cfg))
                     best = max(best, len(opened))
                 row["opened"][str(S)] = best
@@ -227,6 +231,11 @@ def run(ctx: Ctx) -> None:
                     if q and take == 5 and repeat is False:
                         continue
                     configs.append({"iface": iface, "shuffle": shuffle, "fp": fp, "repeat": repeat, "take": take})
+    # a consumer that is slower than the readers (it pauses between examples) and takes a good part of the dataset:
+    # whatever was read ahead must still be bounded by the configuration, not grow with what has been consumed
+    for iface in ("concurrent", "async", "rust", "tfdata"):
+        for shuffle, fp in ((0, 2), (0, 4), (3, 2)):
+            configs.append({"iface": iface, "shuffle": shuffle, "fp": fp, "repeat": False, "take": 60, "pace": 0.01})
     tasks = [{"fmt": fmt, "compression": "", "sizes": [20, 40, 80], "configs": configs, "reps": 2 if q else 4}
              for fmt in ("fb", "npz", "tfrec")]
     try:
@@ -242,10 +251,11 @@ def run(ctx: Ctx) -> None:
             ctx.violation(f"C14|kind={kind}|iface={cfg['iface']}", what, {"config": cfg, "fmt": t["fmt"]})
         for row in o["rows"]:
             n_rows += 1
-            needed = math.ceil(row["take"] / 2)
+            needed = math.ceil(row["take"] / 2)      # two examples per shard; never more than the dataset has
             bound = 4 * (row["shuffle"] + row["fp"]) + 8 + needed
             vals = [row["opened"].get(str(S), 0) for S in t["sizes"]]
-            table.append({k: row[k] for k in ("fmt", "iface", "shuffle", "fp", "repeat", "take")} | {"opened": vals})
+            table.append({k: row[k] for k in ("fmt", "iface", "shuffle", "fp", "repeat", "take")} | {"opened": vals} |
+                         ({"pace": row["pace"]} if row.get("pace") else {}))
             if max(vals) > bound:
                 ctx.violation(f"C14|kind=opens-scale-with-dataset|iface={row['iface']}",
                               f"{row['fmt']} {row['iface']} shuffle={row['shuffle']} file_parallelism={row['fp']} "
